@@ -39,6 +39,21 @@ def install_format_stub():
 
     core._PATCH_REGISTRATIONS[format] = _format_stub
 
+    # str(symbolic number) would otherwise become a symbolic string (digits by arithmetic), which drags every later
+    # text operation (dedent, regex) through CrossHair's string interpreter: render it as the same token instead
+    def _str_stub(*a, **kw):
+        if len(a) == 1 and not kw:
+            with NoTracing():
+                if isinstance(a[0], (BL.SymbolicInt, BL.SymbolicBool, BL.SymbolicFloat)):
+                    return "<sym:%x>" % id(a[0])
+                if isinstance(a[0], BL.AnySymbolicStr):
+                    return a[0]
+            return BL.invoke_dunder(a[0], "__str__")
+        with NoTracing():
+            return str(*a, **kw)
+
+    core._PATCH_REGISTRATIONS[str] = _str_stub
+
 
 def install_attr_patches():
     """CrossHair's setattr()/getattr() patches call the real builtins with tracing switched OFF, so a descriptor or
